@@ -173,6 +173,7 @@ func TestVerifC19Push(t *testing.T) {
 	if verifThorough() {
 		scenarios = 500
 	}
+	slowPushes, slowSaid := 0, false
 	pool := make([]*ecdsa.PrivateKey, 48)
 	poolAddr := make([]eth_common.Address, len(pool))
 	for i := range pool {
@@ -180,7 +181,7 @@ func TestVerifC19Push(t *testing.T) {
 		poolAddr[i] = crypto.PubkeyToAddress(pool[i].PublicKey)
 	}
 	sizes := []int{1, 2, 3, 4, 4, 5, 7, 7, 13, 19}
-	for sc := 0; sc < scenarios; sc++ {
+	for sc := 0; sc < scenarios && slowPushes < 4; sc++ {
 		K := 2 + r.below(5)
 		// set i: indices into the key pool.  A rotation keeps most members (like real guardian-set upgrades): replace one,
 		// append one, drop one, or draw a fresh set
@@ -513,10 +514,18 @@ func TestVerifC19Push(t *testing.T) {
 							pan = fmt.Sprint(x)
 						}
 					}()
-					ctx, cancel := context.WithTimeout(context.Background(), 20*time.Second)
+					ctx, cancel := context.WithTimeout(context.Background(), 4*time.Second)
 					defer cancel()
+					t0 := time.Now()
 					perr = cons.Push(ctx, v, raw)
+					if time.Since(t0) > 3*time.Second {
+						slowPushes++
+					}
 				}()
+				if slowPushes > 0 && !slowSaid {
+					slowSaid = true
+					mon = append(mon, fmt.Sprintf("Push (%s VAA naming set %d, queue holding %d of %d) waited for its context's deadline instead of returning: the hand-off to a full queue fails at once, it does not wait", kind, g, qlenBefore, cap(queue)))
+				}
 				class := verifPushClass(perr, pan)
 				qlenAfter := len(queue)
 				enq := qlenAfter == qlenBefore+1
